@@ -28,6 +28,9 @@ class Report:
         self.call_sites = 0
         self.exhaustive = {}
         self.profiles = []
+        self.scope = ""          # "" for the first pass; " @rel" for the thorough tier's pass over the release-profile MIR
+        self.multi_profile = set()   # rules that already iterate over both profiles in the first pass
+        self.controls = []
         with open(os.path.join(VERIF, "known_findings.json")) as f:
             self.known = json.load(f)["findings"]
 
@@ -37,17 +40,31 @@ class Report:
 
     def ob(self, rule, key, ok, detail="", where=None, how=None):
         """one obligation; `how` says what discharged it when ok"""
+        if self.scope:
+            if rule in self.multi_profile:
+                return ok
+            self.obligations.append(
+                {"rule": rule, "key": key + self.scope, "ok": bool(ok), "detail": detail, "where": where, "how": how, "base_key": key, "pass": self.scope.strip()}
+            )
+            return ok
         self.obligations.append(
             {"rule": rule, "key": key, "ok": bool(ok), "detail": detail, "where": where, "how": how}
         )
         return ok
+
+    def both_profiles(self, rule):
+        """the rule iterates over every loaded profile itself: the second pass adds nothing for it"""
+        if not self.scope:
+            self.multi_profile.add(rule)
 
     def fail(self, rule, key, detail, where=None):
         return self.ob(rule, key, False, detail, where)
 
     def floor(self, rule, measured, floor, what="instances"):
         """fail closed when a rule saw fewer instances than were confirmed by hand"""
-        self.floors[rule] = (measured, floor)
+        if self.scope and rule in self.multi_profile:
+            return
+        self.floors[rule + self.scope] = (measured, floor)
         if measured < floor:
             self.fail(
                 rule, "floor",
@@ -75,8 +92,16 @@ class Report:
                 known_keys[k["key"]] = k
         new = []
         printed_known = set()
+        first_pass = {"%s::%s" % (v["rule"], v["key"]) for v in viol if "base_key" not in v}
         for v in viol:
             full = "%s::%s" % (v["rule"], v["key"])
+            if "base_key" in v:
+                # second pass (release-profile MIR, deeper bounds): the same instance is one finding, not two
+                base_full = "%s::%s" % (v["rule"], v["base_key"])
+                if base_full in first_pass:
+                    continue
+                if base_full in known_keys:
+                    full = base_full
             if full in known_keys:
                 if full not in printed_known:
                     printed_known.add(full)
@@ -120,7 +145,7 @@ class Report:
     def write_evidence(self, nviol, known_printed):
         per_rule = {}
         for o in self.obligations:
-            r = per_rule.setdefault(o["rule"], {"obligations": 0, "discharged": 0})
+            r = per_rule.setdefault(o["rule"] + (" (second pass: release-profile MIR, deeper KIND bounds)" if o.get("pass") else ""), {"obligations": 0, "discharged": 0})
             r["obligations"] += 1
             if o["ok"]:
                 r["discharged"] += 1
@@ -163,6 +188,7 @@ class Report:
             "checker_cmd": "./check %s --tier %s" % (self.prop, self.tier),
             "trusted_base": self.trusted,
             "known_findings_reported": known_printed,
+            "positive_controls": self.controls,
             "notes": self.notes,
         }
         ev = {
